@@ -353,8 +353,11 @@ func vstrictStickyUserData(b []byte, got StickyAssignorUserData) string {
 		}
 		for i := int32(0); i < n; i++ {
 			l := r.i16()
-			if r.err != "" || l < 0 {
+			if r.err != "" || l < -1 {
 				return nil, 0, false
+			}
+			if l == -1 {
+				l = 0 // the null string: sarama reads it as "" everywhere; a marker, not a length that disagrees with the data
 			}
 			name := r.bytesN(int(l))
 			c := r.i32()
